@@ -10,7 +10,7 @@ INT_DTYPES = ('int8', 'int16', 'int32', 'int64', 'uint8', 'uint16', 'uint32', 'u
 FLOAT_DTYPES = ('float16', 'float32', 'float64', 'longdouble')
 SCALAR_CARRIERS = ('pyint', 'pyfloat', 'decstr', 'arr0d', 'fxp') + tuple('np.' + d for d in INT_DTYPES + FLOAT_DTYPES)
 ARRAY_CARRIERS = ('list', 'listf', 'tuple', 'nested', 'strlist', 'arr.fxp', 'arr2.fxp') + tuple('arr.' + d for d in INT_DTYPES + FLOAT_DTYPES) + tuple('arr2.' + d for d in ('int64', 'float64', 'float32', 'int16'))
-ROUTES = ('ctor', 'call', 'setval', 'setitem')
+ROUTES = ('ctor', 'call', 'setval', 'setitem', 'tmpl', 'tmplkw')
 
 
 def _fits_float_dtype(q, dt):
@@ -151,6 +151,16 @@ def store(route, obj, shape, signed, n_word, n_frac, **cfg):
     """store `obj` into a fresh Fxp of the given format by the given route; returns the Fxp."""
     if route == 'ctor':
         return Fxp(obj, signed, n_word, n_frac, **cfg)
+    if route in ('tmpl', 'tmplkw'):
+        # the format and the configuration come from a template object: the class-level `Fxp.template` or the `template=` keyword
+        proto = Fxp(None, signed, n_word, n_frac, **cfg)
+        if route == 'tmplkw':
+            return Fxp(obj, template=proto)
+        Fxp.template = proto
+        try:
+            return Fxp(obj)
+        finally:
+            Fxp.template = None
     x = Fxp(np.zeros(shape, dtype=int) if shape != () else None, signed, n_word, n_frac, **cfg)
     if (n_word * 7 + n_frac * 3 + len(shape)) % 3 == 0 and n_word <= 60:
         # a destination with a past (content-determined): codes beyond both bounds were stored into it (both sticky flags are up),
